@@ -480,8 +480,8 @@ pub fn property() -> Property {
         ],
         both_profiles: false,
         subs: vec![
-            sub("matrix/history", 80_000, 2_000_000, strategy, run),
-            sub("matrix/u8-capacity", 3_000, 60_000, capacity_strategy, run),
+            sub("matrix/history", 400_000, 5_000_000, strategy, run),
+            sub("matrix/u8-capacity", 30_000, 1_000_000, capacity_strategy, run),
         ],
     }
 }
